@@ -236,35 +236,102 @@ func runIdxKeyType(c *core.Ctx) {
 
 func runIdxScan(c *core.Ctx) {
 	P := c.P
-	full := P.Method(P.Root, "eventCacheEvsIndex", "isFullScanReqFilter")
-	keys := P.Method(P.Root, "eventCacheEvsIndex", "keysFromReqFilter")
-	if full == nil || keys == nil {
-		c.NoAnchor(nil, "isFullScanReqFilter / keysFromReqFilter")
+	// the index path's entry: Find of the index answers (candidates, indexed?). "Not
+	// indexed" (full scan) must mean: none of the fields that contribute index keys is
+	// present. The predicate may live in a private helper or be written out in Find.
+	find := P.Method(P.Root, "eventCacheEvsIndex", "Find")
+	if find == nil {
+		c.NoAnchor(nil, "eventCacheEvsIndex.Find")
 		return
 	}
-	c.CountFuncs(2)
-	a := reqFilterFieldsRead([]*ssa.Function{full})
-	b := reqFilterFieldsRead([]*ssa.Function{keys})
-	// the predicate is "all of them nil": result true only on the all-nil path
-	allNil := true
-	for _, rb := range an.ReturnBlocks(full) {
-		paths, _ := an.PathsTo(full, rb, 256)
-		for _, p := range paths {
-			t, _ := an.NoSubject().BoolMeaning(an.LastInstr(rb).(*ssa.Return).Results[0], p, an.Full(), 0)
-			if t.IsEmpty() {
-				continue
+	c.CountFuncs(1)
+	fp := "p:" + find.Params[1].Name()
+	// paths of Find that answer "not indexed"
+	paths, ok := an.ResultPaths(find, 1, false)
+	if !ok {
+		c.Unknown(nil, fname(c, find), "fields", P.Pos(find.Pos()), "too many paths")
+		return
+	}
+	c.CountPaths(len(paths))
+	tested := map[string]bool{}
+	allNil := len(paths) > 0
+	var note func(cd an.Cond, in *ssa.CallCommon, depth int)
+	note = func(cd an.Cond, in *ssa.CallCommon, depth int) {
+		cd = an.NormCond(cd)
+		pathOf := func(v ssa.Value) string {
+			if in != nil {
+				return an.PathOfIn(v, in)
 			}
-			for _, cd := range p.Conds() {
-				bin, ok := cd.V.(*ssa.BinOp)
-				if ok && an.IsNilConst(bin.Y) && ((bin.Op == token.EQL) != cd.True) {
-					allNil = false // a "not nil" outcome on a path that can return true
+			return an.PathOf(v)
+		}
+		if bin, isBin := cd.V.(*ssa.BinOp); isBin && (bin.Op == token.EQL || bin.Op == token.NEQ) && an.IsNilConst(bin.Y) {
+			xp := pathOf(bin.X)
+			if strings.HasPrefix(xp, fp+".") {
+				tested[strings.TrimPrefix(xp, fp+".")] = true
+				if (bin.Op == token.EQL) != cd.True {
+					allNil = false // "present" on a path that answers "not indexed"
+				}
+			}
+			return
+		}
+		// the predicate as a private helper: its verdict is what its own paths test
+		if call, isCall := cd.V.(*ssa.Call); isCall && depth < 2 && in == nil {
+			if g := an.StaticCallee(&call.Call); an.PrivateHelper(g) {
+				sub, ok := an.ResultPaths(g, 0, cd.True)
+				if !ok {
+					return
+				}
+				for _, sp := range sub {
+					for _, sc := range sp.Conds {
+						note(sc, &call.Call, depth+1)
+					}
 				}
 			}
 		}
 	}
-	c.Check(setList(a) == setList(b) && setList(a) == "Authors,IDs,Kinds,Tags" && allNil, nil, fname(c, full), "fields", P.Pos(full.Pos()),
-		"full scan ⇔ {"+setList(a)+"} all nil = the fields that contribute index keys",
-		fmt.Sprintf("full-scan predicate tests {%s} (true only when all nil: %v) but index keys are built from {%s}: a filter can reach the index path with no key set (index out of range) or ignore a condition", setList(a), allNil, setList(b)))
+	for _, p := range paths {
+		for _, cd := range p.Conds {
+			note(cd, nil, 0)
+		}
+	}
+	// fields that contribute index keys: read in Find's region outside presence tests
+	keyed := map[string]bool{}
+	an.Region(find, nil, func(o an.Occ) {
+		if mu, isMU := o.In.(*ssa.MapUpdate); isMU {
+			_ = mu
+		}
+		fa, isFA := o.In.(*ssa.FieldAddr)
+		if !isFA || fa.Referrers() == nil {
+			return
+		}
+		if n, st := structOf(fa); n != nil && n.Obj().Name() == "ReqFilter" && o.Path(fa.X) == fp {
+			name := st.Field(fa.Field).Name()
+			for _, r := range *fa.Referrers() {
+				u, isLoad := r.(*ssa.UnOp)
+				if !isLoad || u.Referrers() == nil {
+					continue
+				}
+				for _, use := range *u.Referrers() {
+					switch use.(type) {
+					case *ssa.Range, *ssa.Index, *ssa.IndexAddr, *ssa.Lookup:
+						keyed[name] = true
+					case *ssa.Call:
+						if cc := use.(*ssa.Call); cc.Common().Value != nil {
+							if b, isB := cc.Call.Value.(*ssa.Builtin); isB && b.Name() == "len" {
+								keyed[name] = true
+							}
+						}
+					}
+				}
+			}
+		}
+	})
+	delete(keyed, "Limit")
+	delete(keyed, "Since")
+	delete(keyed, "Until")
+	c.Check(setList(tested) == setList(keyed) && setList(tested) == "Authors,IDs,Kinds,Tags" && allNil, nil, fname(c, find), "fields", P.Pos(find.Pos()),
+		"full scan ⇔ {"+setList(tested)+"} all nil = the fields that contribute index keys",
+		fmt.Sprintf("the index path answers 'not indexed' after testing {%s} (only when all nil: %v) but index keys are built from {%s}: a filter can reach the index path with no key set (index out of range) or ignore a condition", setList(tested), allNil, setList(keyed)))
 }
 
 func runOrdDesc(c *core.Ctx) {
@@ -449,20 +516,23 @@ func runIdxIntersect(c *core.Ctx) {
 		return
 	}
 	c.CountFuncs(1)
-	// (a) union: inside the per-condition loop, every event of idx[key] is added to the condition's set
+	// (a) union: inside the per-condition loop, every event of idx[key] is added to the
+	// condition's set (in Find or in a private helper it hands the keys to)
 	union := false
-	an.Instrs(find, func(in ssa.Instruction) {
-		mu, ok := in.(*ssa.MapUpdate)
+	an.Region(find, nil, func(o an.Occ) {
+		mu, ok := o.In.(*ssa.MapUpdate)
 		if !ok || !isConstBool(mu.Value, true) {
 			return
 		}
-		if strings.HasPrefix(an.PathOf(mu.Key), "rangekey(recv.idx[") {
+		if strings.HasPrefix(o.Path(mu.Key), "rangekey(recv.idx[") {
 			union = true
 		}
 	})
 	c.Check(union, nil, fname(c, find), "union-within-condition", P.Pos(find.Pos()), "events of every key of a condition are united into that condition's candidate set", "the candidate set of a condition is not the union over its keys")
-	// (b) intersection: elements of the smallest set missing from another set are deleted
+	// (b) intersection: a candidate of the base set that is missing from another set is
+	// deleted, and the "other set" runs over every position of the list but the base's
 	inter := false
+	var other ssa.Value // the indexed set the membership test reads: sets[i]
 	an.Instrs(find, func(in ssa.Instruction) {
 		call, ok := in.(*ssa.Call)
 		if !ok {
@@ -473,35 +543,21 @@ func runIdxIntersect(c *core.Ctx) {
 			return
 		}
 		for _, g := range an.Guards(find, call.Block()) {
-			if strings.HasPrefix(an.PathOf(g.V), "ok(") && !g.True {
+			ex, isEx := g.V.(*ssa.Extract)
+			if !isEx || ex.Index != 1 || g.True {
+				continue
+			}
+			if lk, isLk := ex.Tuple.(*ssa.Lookup); isLk && lk.CommaOk {
 				inter = true
+				other = lk.X
 			}
 		}
 	})
-	// … repeated until one set is left: the loop runs while len(sets) > 1 and drops one set per round
-	loopOK := false
-	an.Instrs(find, func(in ssa.Instruction) {
-		iff, ok := in.(*ssa.If)
-		if !ok || len(an.Latches(iff.Block())) == 0 {
-			return
-		}
-		b, ok := iff.Cond.(*ssa.BinOp)
-		if !ok || b.Op != token.GTR || !strings.HasPrefix(an.PathOf(b.X), "len(") {
-			return
-		}
-		if k, isK := an.ConstInt(b.Y); !isK || k != 1 {
-			return
-		}
-		// a latch re-slices the list to len-1
-		for _, l := range an.Latches(iff.Block()) {
-			for _, li := range l.Instrs {
-				if sl, ok := li.(*ssa.Slice); ok && sl.High != nil && strings.Contains(an.PathOf(sl.High), "- const:1") {
-					loopOK = true
-				}
-			}
-		}
-	})
-	c.Check(inter && loopOK, nil, fname(c, find), "intersect-across-conditions", P.Pos(find.Pos()), "a candidate absent from another condition's set is removed, round after round while more than one set is left (intersection of all conditions)", fmt.Sprintf("candidates are not intersected across all conditions (removal on miss: %v, loop 'while len > 1, drop one set per round': %v): an event matching only some of several conditions is returned", inter, loopOK))
+	loopOK, loopWhy := false, "the set tested for membership is not an element of the list of candidate sets"
+	if other != nil {
+		loopOK, loopWhy = coversAllButBase(other)
+	}
+	c.Check(inter && loopOK, nil, fname(c, find), "intersect-across-conditions", P.Pos(find.Pos()), "a candidate absent from another condition's set is removed, for every other set of the list (intersection of all conditions): "+loopWhy, fmt.Sprintf("candidates are not intersected across all conditions (removal on miss: %v; every other set visited: %v — %s): an event matching only some of several conditions is returned", inter, loopOK, loopWhy))
 	// (c) residual matcher: literal with exactly Since and Until of the filter
 	resid := false
 	an.Instrs(find, func(in ssa.Instruction) {
@@ -566,4 +622,116 @@ func runScanFull(c *core.Ctx) {
 	}
 	c.Check(len(other) == 0, nil, fname(c, find), "tree-reads", P.Pos(find.Pos()), fmt.Sprintf("all %d reads of the creation-time tree on the query path are Iterator()/Len(): every retained event is visited newest first", n),
 		"the query path also reads the creation-time tree through "+strings.Join(other, ", ")+": a walk that does not start at the newest end can skip matching events (ties at the probe key follow the comparator's id order)")
+}
+
+// coversAllButBase: v is sets[i] read inside a loop; decide from the shape of
+// the loop that i visits every position 1 … len(sets)-1 (position 0 holds the
+// set that is pruned). Three spellings are understood:
+//   - for len(sets) > 1 { … sets[len(sets)-1] …; sets = sets[:len(sets)-1] }
+//   - for i := len(sets)-1; i >= 1 (or > 0); i-- { … sets[i] … }
+//   - for i := 1; i < len(sets); i++ { … sets[i] … }   (also: range sets[1:])
+func coversAllButBase(v ssa.Value) (bool, string) {
+	v = an.Unwrap(v)
+	u, ok := v.(*ssa.UnOp)
+	if !ok {
+		return false, "not a load of an element"
+	}
+	ia, ok := u.X.(*ssa.IndexAddr)
+	if !ok {
+		return false, "not an element of a slice"
+	}
+	h := an.LoopHeaderOf(ia.Block())
+	for h != nil {
+		iff, isIf := an.LastInstr(h).(*ssa.If)
+		if isIf {
+			if ok, why := indexLoopCovers(h, iff, ia); ok {
+				return true, why
+			}
+		}
+		// enclosing loop
+		var outer *ssa.BasicBlock
+		for d := h.Idom(); d != nil; d = d.Idom() {
+			if len(an.Latches(d)) > 0 && an.LoopBlocks(d)[h] {
+				outer = d
+				break
+			}
+		}
+		h = outer
+	}
+	return false, "no enclosing loop walks the positions 1 … len-1"
+}
+
+func indexLoopCovers(h *ssa.BasicBlock, iff *ssa.If, ia *ssa.IndexAddr) (bool, string) {
+	cond, ok := iff.Cond.(*ssa.BinOp)
+	if !ok {
+		return false, ""
+	}
+	lenOf := func(x ssa.Value) bool {
+		p := an.PathOf(x)
+		return strings.HasPrefix(p, "len(")
+	}
+	idx := ia.Index
+	// form 1: while len(sets) > 1, element len-1, latch re-slices to len-1
+	if k, isK := an.ConstInt(cond.Y); isK && k == 1 && cond.Op == token.GTR && lenOf(cond.X) {
+		if strings.Contains(an.PathOf(idx), "- const:1") {
+			for _, l := range an.Latches(h) {
+				for _, li := range l.Instrs {
+					if sl, ok := li.(*ssa.Slice); ok && sl.High != nil && strings.Contains(an.PathOf(sl.High), "- const:1") {
+						return true, "while more than one set is left the last one is applied and dropped"
+					}
+				}
+			}
+		}
+		return false, ""
+	}
+	// forms 2/3: the index is an induction variable of this loop
+	ph, ok := idx.(*ssa.Phi)
+	if !ok || ph.Block() != h || len(ph.Edges) != 2 {
+		// rotated loops test the incremented value: idx may be phi+step
+		if b, isB := idx.(*ssa.BinOp); isB {
+			if p2, isP := b.X.(*ssa.Phi); isP && p2.Block() == h {
+				ph = p2
+			}
+		}
+		if ph == nil || ph.Block() != h || len(ph.Edges) != 2 {
+			return false, ""
+		}
+	}
+	var init, next ssa.Value
+	for i, pb := range h.Preds {
+		if h.Dominates(pb) {
+			next = ph.Edges[i]
+		} else {
+			init = ph.Edges[i]
+		}
+	}
+	nb, ok := next.(*ssa.BinOp)
+	if !ok || nb.X != ssa.Value(ph) {
+		return false, ""
+	}
+	step, isK := an.ConstInt(nb.Y)
+	if !isK || step != 1 {
+		return false, ""
+	}
+	// exit test on the induction variable
+	if cond.X != ssa.Value(ph) && cond.X != idx {
+		return false, ""
+	}
+	switch {
+	case nb.Op == token.SUB:
+		// down from len-1 to 1
+		bound, isK := an.ConstInt(cond.Y)
+		from := an.PathOf(init)
+		okBound := isK && ((cond.Op == token.GEQ && bound == 1) || (cond.Op == token.GTR && bound == 0))
+		if okBound && strings.HasPrefix(from, "(len(") && strings.HasSuffix(from, " - const:1)") {
+			return true, "index runs from len-1 down to 1"
+		}
+	case nb.Op == token.ADD:
+		// up from 1 to len-1
+		first, isK := an.ConstInt(init)
+		if isK && first == 1 && cond.Op == token.LSS && lenOf(cond.Y) {
+			return true, "index runs from 1 up to len-1"
+		}
+	}
+	return false, ""
 }
